@@ -12,10 +12,13 @@
   `C01_dur_overflow_reachable` shows that the remaining fault is real (the guard of C01_total is
   not slack): a two-call history with a clock jump of 2^65 seconds reaches it; the same history
   panics the implementation ("overflow when adding durations") and is recorded as a known finding.
-  `C01_work`: the number of transition invocations of one call is at most
-  6 x (events + 1) x (machines + 1)  — see Proofs/Work.lean (stated on the ghost log).
+  `C01_work`: the number of transition invocations of one call (counted on the ghost copy of the
+  hook log, whose agreement with the implementation's log is part of the correspondence) is at
+  most 3 x (events + 1) x (machines + 1), for every machine set (validated or not), every oracle
+  and every batch; the monitor's bound `C01.workBound` (factor 6) follows (`C01_work_monitor`).
 -/
 import MbVerif.Proofs.ValidateOK
+import MbVerif.Proofs.WorkBound
 
 namespace Mb.C01
 open Mb
@@ -53,9 +56,26 @@ theorem C01_state_valid (ms : List Machine) (hms : MachinesValid ms) (fp fb : F6
 /-- the recursion fuel is sufficient: from a valid state, a transition with fuel
     `2 * unset + 2` (at most 6) raises no fuel fault -/
 theorem C01_fuel (mi : Nat) (ev : Event) (s : Fw σ) (hV : Valid s) (hmi : mi < s.rt.length)
-    (fuel : Nat) (hf : 2 * unset s + 2 ≤ fuel) :
+    (fuel : Nat) (hf : 2 * unset s mi + 2 ≤ fuel) :
     NoNewBad s (transition ρ fuel mi ev s).1 :=
   ((safe_main ρ fuel).1 mi ev s hV hmi hf).1
+
+/-- Work bound: one call causes at most 3·(machines+1)·(events+1) transition invocations. -/
+theorem C01_work (es : List TEvent) (t : Int) (s : Fw σ) :
+    stepsOf (triggerEvents ρ es t s) ≤ stepsOf s + 3 * (s.rt.length + 1) * (es.length + 1) :=
+  steps_triggerEvents ρ es t s
+
+/-- ... hence within the bound the monitor checks on the implementation. -/
+theorem C01_work_monitor (es : List TEvent) (t : Int) (s : Fw σ) :
+    stepsOf (triggerEvents ρ es t s) - stepsOf s ≤ workBound es.length s.rt.length := by
+  have := steps_triggerEvents ρ es t s
+  unfold workBound
+  have h : 3 * (s.rt.length + 1) * (es.length + 1) ≤ 6 * (es.length + 1) * (s.rt.length + 1) := by
+    have : 3 * (s.rt.length + 1) * (es.length + 1) = 3 * ((es.length + 1) * (s.rt.length + 1)) := by
+      rw [Nat.mul_assoc, Nat.mul_comm (s.rt.length + 1)]
+    rw [this, Nat.mul_assoc]
+    exact Nat.mul_le_mul_right _ (by decide)
+  omega
 
 /-- an oracle over the trivial random state (never consulted when there are no machines) -/
 def unitOracle : Oracle Unit := { u := fun _ => (0, ()), d := fun _ _ => (0, ()) }
